@@ -26,6 +26,10 @@ func main() {
 		devEnum()
 	case "c27":
 		devC27()
+	case "c30":
+		devC30()
+	case "c36child":
+		os.Exit(c36Child(os.Args[2:]))
 	default:
 		if !dispatch(os.Args[1], os.Args[2:]) {
 			fmt.Fprintln(os.Stderr, "unknown command", os.Args[1])
